@@ -120,7 +120,14 @@ func (s *ftpService) Handle(ctx context.Context, conn net.Conn) error {
 	// under its own address, and no pump ever ended
 	recv := make(chan string)
 
-	ftpConn := s.server.newConn(conn, s.driver, recv)
+	// the working directory lives in the driver: give every connection its own
+	driver := s.driver
+	if fs, ok := s.driver.(*Fs); ok && fs.Htfs != nil {
+		h := *fs.Htfs
+		driver = NewFileDriver(&h)
+	}
+
+	ftpConn := s.server.newConn(conn, driver, recv)
 
 	done := make(chan struct{})
 
